@@ -83,7 +83,7 @@ class Gen:
             lens = [0, 1, 3]
             if S["e"]["k"] in ("int", "char", "bool"):
                 esz = S["e"].get("w", 1)
-                if depth <= 1:
+                if depth <= 2:
                     lens += sorted(set([127 // esz, 127 // esz + 1, 255 // esz, 255 // esz + 1, 127, 128]))
                 if self.big and depth == 0:
                     lens += [255, 256, 65536 // esz + 1]
@@ -100,7 +100,7 @@ class Gen:
             ev = self.values(S["e"], depth + 1)
             cap = S["n"]
             counts = sorted(set([0, 1, min(cap, 2), cap] + ([127, 128, 129, 130] if cap >= 130 else [])
-                                + ([63, 64, 65] if cap >= 65 else [])))
+                                + ([63, 64, 65] if cap >= 65 else []) + ([31, 32, 33] if cap >= 33 else [])))
             counts = [c for c in counts if c <= cap]
             out = []
             for i, n in enumerate(counts):
